@@ -8,9 +8,9 @@ use crate::{
 pub fn run(tier: &str, seed: u64, only: Option<&str>) -> Run {
     let mut run = Run::default();
     let (n_random, prefixes): (usize, &[usize]) = if tier == "thorough" {
-        (6000, &[1, 2, 3, 4, 7, 15, 40, 120])
+        (60000, &[1, 2, 3, 4, 7, 15, 40, 120, 300])
     } else {
-        (700, &[2, 3, 9, 30])
+        (5000, &[2, 3, 9, 30])
     };
     for c in cases(seed, n_random, prefixes) {
         if only.is_some_and(|o| o != c.id) {
